@@ -2,7 +2,7 @@
 # tools/mutant.sh <patch.diff> <ID> [tier]   -- run a check against a scratch copy of /repo with the patch applied.
 # The copy lives under /tmp and is removed afterwards; /repo itself is not touched.
 set -e
-P="$1"; ID="$2"; TIER="${3:-quick}"
+P="$(realpath "$1")"; ID="$2"; TIER="${3:-quick}"
 D=$(mktemp -d /tmp/mut-XXXXXX)
 trap 'rm -rf "$D"' EXIT
 mkdir -p "$D/repo"
